@@ -190,6 +190,22 @@ def medianTime (c : Commit) (vs : ValSet) : Time :=
   let wt := weightedTimes c.sigs vs
   weightedMedian wt (totalWeight wt)
 
+/-! ### vote timestamps (consensus/state.go `voteTime`) -/
+
+/-- `State.voteTime()`: the timestamp a validator puts into its prevote / precommit. `now` is the
+local clock, `locked` / `proposal` the times of `cs.LockedBlock` / `cs.ProposalBlock` (`none` =
+nil), `iota` = `TimeIotaMs` in nanoseconds. The vote must be later than the block it can be for:
+the locked block if there is one, else the proposal block. -/
+def voteTime (now : Time) (locked proposal : Option Time) (iota : Int) : Time :=
+  let minVoteTime :=
+    match locked with
+    | some l => l + iota
+    | none =>
+      match proposal with
+      | some p => p + iota
+      | none => now
+  if now > minVoteTime then now else minVoteTime
+
 /-! ### validateBlock -/
 
 /-- `EvidenceData.ByteSize()` of a freshly built/decoded block -/
